@@ -11,8 +11,10 @@
 //          action = stall (peer stops reading) | gate (peer reads again) | peer (peer closes the connection);
 //                   fired by emitter 0 after its k-th attempt
 // output:  <verdict> <counts> ; W <wire tokens> ; R <emit tokens>
-//          verdict = ok | hang | blocked (an Emit call took longer than emitBound, or emitters made no progress while
-//                    the writer was stalled)
+//          verdict = ok | hang <what> (emitters or Close did not finish in scenarioBound; Close on a readable peer needed
+//                    the force path and more) | blocked (an Emit call took longer than emitBound: emitters run while the peer is
+//                    stalled, and a stalled peer only resumes through emitter 0's progress or the watchdog)
+//                    | GOPANIC emitter (a panic inside an Emit* call)
 //          wire tokens: c = next connection, n = node-information frame (byte-equal to NodeInfo.Encode), e<tag> event,
 //                    f<tag>.<parentseq> follow-up, d<count> dropped-events record, x = malformed / unknown frame or
 //                    trailing bytes on a connection that saw no write error
@@ -46,7 +48,7 @@ const (
 
 	emitBound     = 4 * time.Second  // an Emit slower than this counts as a blocked emitter
 	stallWatchdog = 6 * time.Second  // a stalled peer resumes by itself after this (so nothing can hang)
-	scenarioBound = 20 * time.Second // whole scenario
+	scenarioBound = 12 * time.Second // emitters / Close must be done by then
 )
 
 var errInjected = errors.New("verif: injected write failure")
@@ -359,10 +361,16 @@ func runScenario(sc scenario) string {
 		seeds[e] = rng.Fork()
 	}
 	var wg sync.WaitGroup
+	var emitterPanics atomic.Int32
 	for e := 0; e < sc.emitters; e++ {
 		wg.Add(1)
 		go func(e int) {
 			defer wg.Done()
+			defer func() { // a panic inside Emit* (e.g. dropState.record's invariant check) must not kill the harness
+				if x := recover(); x != nil {
+					emitterPanics.Add(1)
+				}
+			}()
 			r := seeds[e]
 			var last, old uint64 = telemetry.InvalidID, telemetry.InvalidID
 			ctl := 0
@@ -444,9 +452,10 @@ func runScenario(sc scenario) string {
 	select {
 	case <-emittersDone:
 	case <-time.After(scenarioBound):
-		verdict = "hang"
+		// emitters are stuck inside Emit*: they are leaked, their records are not read
 		openAll()
-		<-emittersDone
+		blockedRuns++
+		return "hang emitters-did-not-finish"
 	}
 	stalledWrites := 0
 	connMu.Lock()
@@ -457,17 +466,28 @@ func runScenario(sc scenario) string {
 	if !sc.closeStalled {
 		openAll()
 	}
+	tClose := time.Now()
 	doClose()
 	select {
 	case <-closeDone:
 	case <-time.After(scenarioBound):
-		verdict = "hang"
+		verdict = "hang close-did-not-return"
+	}
+	if !sc.closeStalled && sc.closeAt < 0 && time.Since(tClose) > closeTimeout+500*time.Millisecond && verdict == "ok" {
+		// Close on a readable peer had to force-close and the client's goroutines did not exit in time
+		verdict = "hang close-forced"
 	}
 	openAll()
 	for _, d := range maxLat {
 		if d > emitBound && verdict == "ok" {
 			verdict = "blocked"
 		}
+	}
+	if emitterPanics.Load() > 0 {
+		verdict = "GOPANIC emitter"
+	}
+	if verdict == "blocked" || strings.HasPrefix(verdict, "hang") {
+		blockedRuns++
 	}
 
 	// ---- observed run -> canonical trace
@@ -585,8 +605,15 @@ func decodeEvent(body []byte) string {
 	return "x"
 }
 
+// blockedRuns counts scenarios that ended blocked / hung; after two of them the remaining scenarios are not
+// run (each would cost the watchdog time), they are reported as blocked too.
+var blockedRuns int
+
 func run(input string) string {
 	sc := parseScenario(input)
+	if blockedRuns >= 2 {
+		return "blocked (not run: two earlier scenarios already blocked or hung)"
+	}
 	return runScenario(sc)
 }
 
